@@ -350,7 +350,8 @@ class FormulaManager(object):
           - (Optionally) a mpq or mpz object
         """
         # TODO could this be improved by storing only the relative Fraction (or int maybe) in the real_constants dict?
-        if value in self.real_constants:
+        # Note: bool values are equal to 0 / 1 but are not valid constants
+        if type(value) != bool and value in self.real_constants:
             return self.real_constants[value]
 
         if is_pysmt_fraction(value):
@@ -371,7 +372,10 @@ class FormulaManager(object):
 
     def Int(self, value: int) -> FNode:
         """Return a constant of type INT."""
-        if value in self.int_constants:
+        # Note: values that are equal to an integer (True, 1.0, Fraction(1))
+        # but are not integers are not valid constants
+        if (is_pysmt_integer(value) or is_python_integer(value)) and \
+           value in self.int_constants:
             return self.int_constants[value]
 
         if is_pysmt_integer(value):
